@@ -291,6 +291,8 @@ def run_case(ctx, case, count=True):
                     return []
                 return [("shared-seen:incomplete-union-but-no-member-declined", f"{label}: dangling {sorted(dangling)[:2]}")]
         values, problems, dup = exec_records(recs, random.Random(case.get("oseed", 0)))
+        if problems and has_hoisted_fused_subgraph(recs):
+            return [(HOIST_SIG, f"{label}: {problems[0][0]}: {problems[0][1]}")]
         for kind, detail in problems:
             fails.append(("records:" + kind, f"{label}: {detail}"))
         if not problems or values:
@@ -358,6 +360,22 @@ def run_case(ctx, case, count=True):
 
 
 FAST_SIG = "fused-fast-records:sampled-block-independence"
+HOIST_SIG = "records:embedded-fused-subgraph-hoisted"
+
+
+def has_hoisted_fused_subgraph(recs):
+    """decidable signature: a record calls `_execute_subgraph` with an inner subgraph whose tasks were
+    replaced by references (the generic adapter lifted the tasks of a FUSED task's inner subgraph — a
+    fused task embedded in another layer, e.g. SetItem's materialized value graph — into records that
+    reference fused-away keys).  Alone such a collection is declined (dangling keys); in a shared-`seen`
+    group another member may happen to produce those keys, the union then passes the completeness check
+    and the fused callables are replaced by block data."""
+    from dask._task_spec import TaskRef, _execute_subgraph
+
+    for r in recs:
+        if r[1] is _execute_subgraph and r[2] and isinstance(r[2][0], dict) and any(isinstance(v, TaskRef) for v in r[2][0].values()):
+            return True
+    return False
 
 
 def passes_with_slow_records(ctx, case):
@@ -712,6 +730,19 @@ def known_probe(ctx):
             ctx.fail(FAST_SIG, case, fails[0][0] + ": " + fails[0][1])
         else:
             ctx.fail(fails[0][0], case, fails[0][1])
+    # a fused task embedded in a SetItem layer + a second collection that produces the fused-away keys
+    prog = [
+        {"op": "src", "shape": [5, 1], "chunks": [[1, 1, 1, 1, 1], [1]], "mul": 1, "off": -1, "mod": 5, "out": "v1"},
+        {"op": "src", "shape": [5, 1], "chunks": [[1, 2, 1, 1], [1]], "mul": 3, "off": -4, "mod": 11, "out": "v2"},
+        {"op": "maximum", "args": ["v2", "v1"], "out": "v3"},
+        {"op": "astype", "args": ["v3"], "dtype": "int32", "out": "v4"},
+        {"op": "rechunk", "args": ["v4"], "chunks": [[2, 2, 1], [1]], "out": "v7"},
+        {"op": "rechunk", "args": ["v4"], "chunks": [[5], [1]], "out": "v8"},
+        {"op": "setitem", "args": ["v7"], "index": [["s", None, 6, None], ["s", None, 1, 3]], "value": "v8", "out": "v9"},
+    ]
+    case = {"prog": prog, "roots": ["v3", "v9"], "optimize": True, "shared": True, "oseed": 0, "history": "group"}
+    for sig, detail in run_case(ctx, case, count=False) or []:
+        ctx.fail(sig, case, detail)
 
 
 def targeted(ctx):
